@@ -76,7 +76,9 @@ const SHIM_METHODS: [&str; 31] = [
 ];
 
 // path calls renamed to free shim functions
-const SHIM_PATHS: [(&str, &str); 5] = [
+const SHIM_PATHS: [(&str, &str); 7] = [
+    ("env::var", "rws_env_var"),
+    ("env::current_dir", "rws_env_current_dir"),
     ("String::from_utf8", "rws_string_from_utf8"),
     ("Vec::from", "rws_vec_from"),
     ("io::Cursor::new", "rws_cursor_new"),
